@@ -288,3 +288,148 @@ Example C11_generated_example :
   RestartGenP.gen_final DriverInst.unitK (Driver.mkcfg 8 2 1 (-1) true true false) 5
     (DriverInst.st_init (Driver.mkcfg 8 2 1 (-1) true true false)) = [(5, tt)].
 Proof. split; [split; reflexivity | vm_compute; reflexivity]. Qed.
+
+(* ===================================================================================================================
+   BEGIN family laststep: the number of steps main() derives from a run length (Proofs/LastStepP.v, Gen/Gen_LastStep.v)
+   =================================================================================================================== *)
+(** * The step counts of the legs add up
+
+    The continuation theorems above speak of n1, n2 and n1+n2 executed steps.  A user gives run lengths T1, T2, T1+T2 in
+    synchrotron periods; main() turns each into a step count with
+      [uint32_t laststep = std::ceil(steps*rotations*(1.0-1e-12))]
+    (doubles; model [Records.laststep]: every product one binary64 multiplication [rnd53], which is Flocq's binary64
+    round-to-nearest-even for every rational: rnd53_is_binary64_RNE in Properties_C17).  That the three counts satisfy
+    n1 + n2 = n3 is therefore a statement about floating-point rounding.  On the pinned tree (`rotations` narrowed to
+    float, no guard factor) it was false: C11_laststep_pinned_not_additive, found on the binary by lib/c11_splits.py and
+    repaired in the repo ("fix: the number of steps of a run no longer depends on rounding noise ...").
+    Trusted: that the option parser (boost::lexical_cast / strtod) returns the double nearest to the decimal string. *)
+From Inovesa Require Import Base.Float32 Model.Kick Model.Bounds Model.ScalingOps Proofs.LastStepP.
+From Inovesa Require Gen.Gen_LastStep.
+
+(** a run length typed as the decimal value of k/N - parsed to the nearest double - with N steps per period takes
+    exactly k steps, for every N and k up to 2^30 *)
+Theorem C11_laststep_on_step_grid :
+  forall N k : Z, 1 <= N <= 2 ^ 30 -> 0 <= k <= 2 ^ 30 ->
+    laststep (Qcz N) (rnd53 (Qcz k / Qcz N)%Qc) = k.
+Proof. exact laststep_on_step_grid. Qed.
+Print Assumptions C11_laststep_on_step_grid.
+
+(** hence the legs' step counts add up for every split point on the step grid *)
+Theorem C11_laststep_additive :
+  forall N k1 k2 : Z, 1 <= N <= 2 ^ 30 -> 0 <= k1 -> 0 <= k2 -> k1 + k2 <= 2 ^ 30 ->
+    laststep (Qcz N) (rnd53 (Qcz k1 / Qcz N)%Qc) + laststep (Qcz N) (rnd53 (Qcz k2 / Qcz N)%Qc)
+    = laststep (Qcz N) (rnd53 (Qcz (k1 + k2) / Qcz N)%Qc).
+Proof. exact laststep_additive. Qed.
+Print Assumptions C11_laststep_additive.
+
+(** ... and C11_continuation_equiv applies to the step counts main() computes: the run continued for T2 = k2/N after
+    T1 = k1/N ends in the record of the uninterrupted run over (k1+k2)/N, under the hypotheses of C11_continuation_equiv *)
+Theorem C11_continuation_on_step_grid :
+  forall (G P F : Type) (projX : G -> P) (integ : P -> F) (normW : F -> G -> G) (maps : P -> G -> G)
+         r (N k1 k2 : Z) (s0 : pst G P F) p0 f0,
+    1 <= N <= 2 ^ 30 -> 0 <= k1 -> 0 <= k2 -> k1 + k2 <= 2 ^ 30 ->
+    let n1 := laststep (Qcz N) (rnd53 (Qcz k1 / Qcz N)%Qc) in
+    let n2 := laststep (Qcz N) (rnd53 (Qcz k2 / Qcz N)%Qc) in
+    let n3 := laststep (Qcz N) (rnd53 (Qcz (k1 + k2) / Qcz N)%Qc) in
+    r < 0 \/
+    (0 < r /\ (r | n1) /\
+     (forall g, norm G P F projX integ normW (norm G P F projX integ normW g) = norm G P F projX integ normW g) /\
+     (forall g, norm G P F projX integ normW (snorm G F normW f0 g) = norm G P F projX integ normW g) /\
+     (forall g x, maps (projX (snorm G F normW f0 g)) x = maps (projX g) x) /\
+     (forall g x, maps (projX (norm G P F projX integ normW g)) x = maps (projX g) x)) ->
+    continued G P F projX integ normW maps r n1 n2 s0 p0 f0 = single G P F projX integ normW maps r n3 s0.
+Proof. exact continuation_on_step_grid. Qed.
+Print Assumptions C11_continuation_on_step_grid.
+
+(** the guard factor removes rounding noise only: a product steps*rotations that exceeds a whole number m >= 1 by at
+    least 2e-12 (relative) and is at most m+1 gives m+1 steps (the true threshold is about 1.0002e-12; whatever the two
+    factors are - doubles or not) *)
+Theorem C11_laststep_fractional_rounds_up :
+  forall (steps rot : Qc) (m : Z),
+    1 <= m -> (Qcz m * (1 + Q2Qc (2 # 1000000000000)) <= steps * rot)%Qc -> (steps * rot <= Qcz (m + 1))%Qc ->
+    laststep steps rot = m + 1.
+Proof. exact laststep_fractional_rounds_up. Qed.
+Print Assumptions C11_laststep_fractional_rounds_up.
+
+(** ... and every run length of at most one step that is not a subnormal number of steps takes one step *)
+Theorem C11_laststep_first_step :
+  forall steps rot : Qc, (Q2Qc (1 # 2 ^ 1000) <= steps * rot)%Qc -> (steps * rot <= 1)%Qc -> laststep steps rot = 1.
+Proof. exact laststep_first_step. Qed.
+Print Assumptions C11_laststep_first_step.
+
+(** the pinned line [ceil(steps * float(rotations))] refutes additivity: -N 100 -T 0.3 takes 31 steps, -T 0.6 takes 61 *)
+Theorem C11_laststep_pinned_not_additive :
+  laststep_pinned (Qcz 100) (rnd32 (Q2Qc (3 # 10))) = 31 /\ laststep_pinned (Qcz 100) (rnd32 (Q2Qc (6 # 10))) = 61 /\
+  laststep_pinned (Qcz 100) (rnd32 (Q2Qc (3 # 10))) + laststep_pinned (Qcz 100) (rnd32 (Q2Qc (3 # 10)))
+  <> laststep_pinned (Qcz 100) (rnd32 (Q2Qc (6 # 10))).
+Proof. exact laststep_pinned_not_additive. Qed.
+Print Assumptions C11_laststep_pinned_not_additive.
+
+(** keeping `rotations` in double is not enough: without the guard factor 100 * 0.07 = 7.000000000000001 takes 8 steps
+    and 100 * 0.14 takes 15 *)
+Theorem C11_laststep_pinned_double_not_additive :
+  Records.Qcceil (rnd53 (Qcz 100 * rnd53 (Qcz 7 / Qcz 100))%Qc) = 8 /\
+  Records.Qcceil (rnd53 (Qcz 100 * rnd53 (Qcz 14 / Qcz 100))%Qc) = 15 /\
+  Records.Qcceil (rnd53 (Qcz 100 * rnd53 (Qcz 7 / Qcz 100))%Qc) + Records.Qcceil (rnd53 (Qcz 100 * rnd53 (Qcz 7 / Qcz 100))%Qc)
+  <> Records.Qcceil (rnd53 (Qcz 100 * rnd53 (Qcz 14 / Qcz 100))%Qc).
+Proof. exact laststep_unguarded_not_additive. Qed.
+Print Assumptions C11_laststep_pinned_double_not_additive.
+
+(** ** Tie of that line to the source by translation.  [Gen/Gen_LastStep.v] is regenerated from main() on every run
+    (translate/laststep2coq.py, symbolic execution with the code's own arithmetic): [gen_laststep] is the bound of the
+    test `counter < bound` of main()'s simulation loop (counter 0 at entry) and, identically, the `steps` argument of
+    both DynamicRFKickMap constructions; [gen_steps] is the denominator of the time values `counter/steps` written to the
+    results file.  The generated bound is the unsigned conversion of [Records.laststep] of the generated steps per period
+    and the option NRotations as a double.  A float narrowing of `rotations`, a dropped or different guard constant,
+    std::round / std::floor instead of std::ceil, `laststep+1`, another order of the products change the generated text
+    and break this proof. *)
+Theorem C11_source_laststep_is_model :
+  Gen_LastStep.gen_loop_start = 0 /\
+  forall LZ LQ LB,
+    Gen_LastStep.gen_laststep LZ LQ LB =
+    f2u 32 (Qcz (laststep (Gen_LastStep.gen_steps LZ LQ LB) (LQ Gen_LastStep.O_getNRotations))).
+Proof. exact (conj gen_loop_start_zero gen_laststep_is_model). Qed.
+Print Assumptions C11_source_laststep_is_model.
+
+(** without StepsPerRevolution the generated steps per period are the integer max(StepsPerTs, 1) *)
+Theorem C11_source_steps_default :
+  forall LZ LQ LB, (LQ Gen_LastStep.O_getStepsPerTrev <= 0)%Qc ->
+    Gen_LastStep.gen_steps LZ LQ LB = Qcz (Z.max (LZ Gen_LastStep.O_getStepsPerTsync) 1).
+Proof. exact gen_steps_default. Qed.
+Print Assumptions C11_source_steps_default.
+
+(** the statements about run lengths on the step grid and about intended fractions, for the generated bound: it is
+    defined (no undefined float -> unsigned conversion) and has the stated value *)
+Theorem C11_source_laststep_on_step_grid :
+  forall LZ LQ LB (N k : Z),
+    (LQ Gen_LastStep.O_getStepsPerTrev <= 0)%Qc -> N = Z.max (LZ Gen_LastStep.O_getStepsPerTsync) 1 -> N <= 2 ^ 30 ->
+    0 <= k <= 2 ^ 30 -> LQ Gen_LastStep.O_getNRotations = rnd53 (Qcz k / Qcz N)%Qc ->
+    Gen_LastStep.gen_laststep LZ LQ LB = Val k.
+Proof. exact gen_laststep_on_step_grid. Qed.
+Print Assumptions C11_source_laststep_on_step_grid.
+
+Theorem C11_source_laststep_fractional_rounds_up :
+  forall LZ LQ LB (m : Z), 1 <= m < 2 ^ 32 - 1 ->
+    (Qcz m * (1 + Q2Qc (2 # 1000000000000)) <= Gen_LastStep.gen_steps LZ LQ LB * LQ Gen_LastStep.O_getNRotations)%Qc ->
+    (Gen_LastStep.gen_steps LZ LQ LB * LQ Gen_LastStep.O_getNRotations <= Qcz (m + 1))%Qc ->
+    Gen_LastStep.gen_laststep LZ LQ LB = Val (m + 1).
+Proof. exact gen_laststep_fractional_rounds_up. Qed.
+Print Assumptions C11_source_laststep_fractional_rounds_up.
+
+(** non-vacuity: -N 100 with -T 0.3, 0.6, 0.07, 0.14 (the inputs of the finding) through the model and through the
+    generated expression (leaf order of Gen_LastStep: [StepsPerTs] / [NRotations; RevolutionFrequency; StepsPerTrev;
+    SyncFreq; fs]); a fraction that is kept: 100 * 0.0700001 takes 8 steps *)
+Example C11_laststep_example :
+  laststep (Qcz 100) (rnd53 (Qcz 30 / Qcz 100)%Qc) = 30 /\ laststep (Qcz 100) (rnd53 (Qcz 60 / Qcz 100)%Qc) = 60 /\
+  laststep (Qcz 100) (rnd53 (Qcz 7 / Qcz 100)%Qc) = 7 /\ laststep (Qcz 100) (rnd53 (Qcz 14 / Qcz 100)%Qc) = 14 /\
+  laststep (Qcz 100) (rnd53 (Q2Qc (700001 # 10000000))) = 8 /\
+  (Qcz 7 * (1 + Q2Qc (2 # 1000000000000)) <= Qcz 100 * rnd53 (Q2Qc (700001 # 10000000)))%Qc.
+Proof. vm_compute. repeat split; discriminate. Qed.
+Example C11_source_laststep_example :
+  Gen_LastStep.gen_laststep_list [100] [rnd53 (Qcz 30 / Qcz 100)%Qc; Qcz 0; Qcz 0; Qcz 0; Qcz 0] [] = 30 /\
+  Gen_LastStep.gen_laststep_list [100] [rnd53 (Qcz 7 / Qcz 100)%Qc; Qcz 0; Qcz 0; Qcz 0; Qcz 0] [] = 7 /\
+  Gen_LastStep.gen_laststep_list [0] [rnd53 (Qcz 14 / Qcz 1)%Qc; Qcz 0; Qcz 0; Qcz 0; Qcz 0] [] = 14.
+Proof. vm_compute. repeat split. Qed.
+(* ===================================================================================================================
+   END family laststep
+   =================================================================================================================== *)
